@@ -170,7 +170,7 @@ impl Repository {
     /// Calculate an index filename for a specific category, like _"0a0000.win32.index"_.
     pub fn index_filename(&self, chunk: u8, category: Category) -> String {
         format!(
-            "{:02x}{:02}{:02}.{}.index",
+            "{:02x}{:02x}{:02x}.{}.index",
             category as i32,
             self.expansion(),
             chunk,
@@ -189,7 +189,7 @@ impl Repository {
         let platform = get_platform_string(&self.platform);
 
         format!(
-            "{:02x}{expansion:02}{chunk:02}.{platform}.dat{data_file_id}",
+            "{:02x}{expansion:02x}{chunk:02x}.{platform}.dat{data_file_id}",
             category as u32
         )
     }
